@@ -58,10 +58,13 @@ def create_domain_metrics_for_each_client(
         per_example_loss(step_state['params'], batch, use_rng) * example_mask)
     domain_loss = jax.ops.segment_sum(example_loss, batch['domain_id'],
                                       num_domains)
-    if regularizer is not None:
-      domain_loss += regularizer(step_state['params'])
     domain_num = jax.ops.segment_sum(
         example_mask.astype(jnp.float32), batch['domain_id'], num_domains)
+    if regularizer is not None:
+      # domain_loss is a sum over examples: add the regularizer once per real
+      # example so that domain_loss / domain_num is the mean loss plus the
+      # regularizer, whatever the batch size (and nothing for padding).
+      domain_loss += regularizer(step_state['params']) * domain_num
     next_step_state = {
         'params': step_state['params'],
         'rng': rng,
